@@ -44,7 +44,7 @@ def check(ctx):
             ctx.violation("Q1", f"{name}|missing", tc.loc(tc.tree), f"converter {name} does not exist")
             continue
         try:
-            m = fold_function(fd, consts)
+            m = fold_function(fd, consts, funcs=tc.functions)
         except NotFoldable as e:
             raise AnalysisError(f"converter {name} is not a foldable arithmetic expression ({e}); Q1 needs a re-read") from e
         want = N[a] / N[b]
@@ -134,6 +134,14 @@ def table(ctx, tc, units):
         raise AnalysisError("creation function of time conversions (the one reading match.group('time_unit')) not recognised")
     fn = creators[0]
     conv_expr = sub  # expression that yields the converter inside the creation function
+
+    def _calls(f, name):
+        return [n for n in ast.walk(f) if isinstance(n, ast.Call) and isinstance(n.func, ast.Name) and n.func.id == name]
+
+    splitter = None
+    if sfn is not fn and not _calls(fn, sfn.name) and _calls(sfn, fn.name):
+        # the name is taken apart by a helper that returns (base name, unit, group suffix); the creation function calls it
+        splitter, fn = fn, sfn
     if sfn is not fn:
         hparams = [a.arg for a in sfn.args.args]
         calls = [n for n in ast.walk(fn) if isinstance(n, ast.Call) and isinstance(n.func, ast.Name) and n.func.id == sfn.name]
@@ -145,47 +153,122 @@ def table(ctx, tc, units):
         parts = ["{" + bound.get(p[1:-1], p[1:-1]) + "}" if p.startswith("{") else p for p in parts]
         conv_expr = c
     src_unit = base = agg = None
+    found = {}
+    raw_groups = set()  # variables holding match.group(...) as is (None when the group is absent)
+
+    def _group_in(e):
+        t = ast.unparse(e)
+        hits = [g for g in ("time_unit", "base_name", "aggregation") if f".group('{g}')" in t]
+        return hits[0] if len(hits) == 1 else None
+
+    split_groups, split_vars = None, set()
+    if splitter is not None:
+        rets = [r for r in walk_own(splitter) if isinstance(r, ast.Return) and isinstance(r.value, ast.Tuple)]
+        if len(rets) == 1:
+            split_groups = [_group_in(e) for e in rets[0].value.elts]
     for n in walk_own(fn):
         if isinstance(n, ast.Assign) and isinstance(n.targets[0], ast.Name):
-            t = ast.unparse(n.value)
-            if ".group('time_unit')" in t:
-                src_unit = n.targets[0].id
-            if ".group('base_name')" in t:
-                base = n.targets[0].id
-            if ".group('aggregation')" in t:
-                agg = n.targets[0].id
+            g = _group_in(n.value)
+            if g:
+                found[g] = n.targets[0].id
+                if isinstance(n.value, ast.Call):
+                    raw_groups.add(n.targets[0].id)
+            if splitter is not None and isinstance(n.value, ast.Call) and isinstance(n.value.func, ast.Name) and n.value.func.id == splitter.name:
+                split_vars.add(n.targets[0].id)
+    for n in walk_own(fn):
+        if isinstance(n, ast.Assign) and isinstance(n.targets[0], ast.Tuple) and all(isinstance(e, ast.Name) for e in n.targets[0].elts):
+            tg = [e.id for e in n.targets[0].elts]
+            v = n.value
+            if isinstance(v, ast.Call) and isinstance(v.func, ast.Attribute) and v.func.attr == "group" and len(v.args) == len(tg) and all(isinstance(a, ast.Constant) for a in v.args):
+                # base, unit, agg = match.group('base_name', 'time_unit', 'aggregation')
+                found.update({a.value: t_ for a, t_ in zip(v.args, tg)})
+                raw_groups.update(tg)
+            elif split_groups and len(split_groups) == len(tg) and (
+                (isinstance(v, ast.Name) and v.id in split_vars) or (isinstance(v, ast.Call) and isinstance(v.func, ast.Name) and v.func.id == splitter.name)
+            ):
+                found.update({g: t_ for g, t_ in zip(split_groups, tg) if g})
+    src_unit, base, agg = found.get("time_unit"), found.get("base_name"), found.get("aggregation")
     loops = [n for n in walk_own(fn) if isinstance(n, ast.For) and conv_expr in list(ast.walk(n)) and isinstance(n.target, ast.Name)]
-    if None in (src_unit, base, agg) or len(loops) != 1:
+    comp = None
+    if not loops:
+        # comprehension form: {new_name: factory(...) for unit, new_name in names.items()} / {f"...": factory(...) for unit in units}
+        comps = [n for n in walk_own(fn) if isinstance(n, ast.DictComp) and len(n.generators) == 1 and conv_expr in list(ast.walk(n.value))]
+        comp = comps[0] if len(comps) == 1 else None
+    if None in (src_unit, base, agg) or (len(loops) != 1 and comp is None):
         raise AnalysisError("creation site of time conversions: source/missing unit variables not recognised")
-    loop = loops[0]
-    miss_unit = loop.target.id
+    name_param = fn.args.args[0].arg
+
+    def _is_factory(c):
+        return isinstance(c, ast.Call) and isinstance(c.func, ast.Name) and c.func.id in tc.functions and c.func.id != sfn.name
+
+    if comp is None:
+        loop = loops[0]
+        miss_unit = loop.target.id
+        nn = [n for n in ast.walk(loop) if isinstance(n, ast.Assign) and isinstance(n.value, ast.JoinedStr) and isinstance(n.targets[0], ast.Name)]
+        if len(nn) != 1:
+            raise AnalysisError("creation site: name of the derived node not recognised")
+        nn_loc, nn_expr, name_var = nn[0], nn[0].value, nn[0].targets[0].id
+        fac = [n for n in ast.walk(loop) if isinstance(n, ast.Assign) and isinstance(n.targets[0], ast.Subscript) and _is_factory(n.value)]
+        if len(fac) != 1:
+            raise AnalysisError("creation site: factory call not recognised")
+        fac_loc, fac_call, fac_key = fac[0], fac[0].value, ast.unparse(fac[0].targets[0].slice)
+    else:
+        g = comp.generators[0]
+        defs_ = {}
+        for n in walk_own(fn):
+            if isinstance(n, ast.Assign) and len(n.targets) == 1 and isinstance(n.targets[0], ast.Name):
+                defs_.setdefault(n.targets[0].id, []).append(n.value)
+        it_ = g.iter
+        if (
+            isinstance(g.target, ast.Tuple) and len(g.target.elts) == 2 and all(isinstance(e, ast.Name) for e in g.target.elts)
+            and isinstance(it_, ast.Call) and isinstance(it_.func, ast.Attribute) and it_.func.attr == "items" and isinstance(it_.func.value, ast.Name)
+            and len(defs_.get(it_.func.value.id, [])) == 1 and isinstance(defs_[it_.func.value.id][0], ast.DictComp)
+        ):
+            d = defs_[it_.func.value.id][0]
+            dg = d.generators[0]
+            if not (len(d.generators) == 1 and isinstance(dg.target, ast.Name) and isinstance(d.key, ast.Name) and d.key.id == dg.target.id and isinstance(d.value, ast.JoinedStr)):
+                raise AnalysisError("creation site: table of derived names not recognised")
+            miss_unit, name_var = g.target.elts[0].id, g.target.elts[1].id
+
+            class _Ren(ast.NodeTransformer):
+                def visit_Name(self, n):
+                    return ast.copy_location(ast.Name(id=miss_unit, ctx=n.ctx), n) if n.id == dg.target.id else n
+
+            nn_loc, nn_expr = d, _Ren().visit(ast.parse(ast.unparse(d.value), mode="eval").body)
+        elif isinstance(g.target, ast.Name) and isinstance(comp.key, ast.JoinedStr):
+            miss_unit, name_var, nn_loc, nn_expr = g.target.id, None, comp, comp.key
+        else:
+            raise AnalysisError("creation site: comprehension over the missing units not recognised")
+        if not _is_factory(comp.value):
+            raise AnalysisError("creation site: factory call not recognised")
+        fac_loc, fac_call, fac_key = comp, comp.value, ast.unparse(comp.key)
     ok = parts == ["{" + src_unit + "}", "_to_", "{" + miss_unit + "}"]
     ctx.ob("Q2", ok=ok, distinct="lookup-key")
     if not ok:
         ctx.violation("Q2", "creation|lookup-key|" + "".join(parts), tc.loc(sub), f"converter looked up as {''.join(parts)}; must be {{{src_unit}}}_to_{{{miss_unit}}} (source unit first)")
-    # new name
-    nn = [n for n in ast.walk(loop) if isinstance(n, ast.Assign) and isinstance(n.value, ast.JoinedStr) and isinstance(n.targets[0], ast.Name)]
-    if len(nn) != 1:
-        raise AnalysisError("creation site: name of the derived node not recognised")
-    nn = nn[0]
-    nparts = [v.value if isinstance(v, ast.Constant) else "{" + ast.unparse(v.value) + "}" for v in nn.value.values]
-    ok = nparts == ["{" + base + "}", "{" + miss_unit + "}", "{" + agg + "}"]
+    # new name; a group that can be None (taken raw from match.group) must be written `{agg or ''}`
+    def _part(v):
+        if isinstance(v, ast.Constant):
+            return v.value
+        e = v.value
+        if isinstance(e, ast.BoolOp) and isinstance(e.op, ast.Or) and len(e.values) == 2 and isinstance(e.values[1], ast.Constant) and e.values[1].value == "":
+            return "{" + ast.unparse(e.values[0]) + "|or-empty}"
+        return "{" + ast.unparse(e) + "}"
+
+    nparts = [_part(v) for v in nn_expr.values]
+    want_agg = "{" + agg + ("|or-empty}" if agg in raw_groups else "}")
+    ok = nparts == ["{" + base + "}", "{" + miss_unit + "}", want_agg]
     ctx.ob("Q2", ok=ok, distinct="new-name")
     if not ok:
-        ctx.violation("Q2", "creation|new-name|" + "".join(nparts), tc.loc(nn), f"derived node is named {''.join(nparts)}; must be {{{base}}}{{{miss_unit}}}{{{agg}}}")
+        ctx.violation("Q2", "creation|new-name|" + "".join(nparts), tc.loc(nn_loc), f"derived node is named {''.join(nparts)}; must be {{{base}}}{{{miss_unit}}}{{{agg}}} (an absent group suffix as the empty string)")
     # factory call: (source name, info, converter) stored under the new name
-    name_param = fn.args.args[0].arg
-    fac = [n for n in ast.walk(loop) if isinstance(n, ast.Assign) and isinstance(n.targets[0], ast.Subscript) and isinstance(n.value, ast.Call) and isinstance(n.value.func, ast.Name) and n.value.func.id in tc.functions and n.value.func.id != sfn.name]
-    if len(fac) != 1:
-        raise AnalysisError("creation site: factory call not recognised")
-    fac = fac[0]
-    allargs = list(fac.value.args) + [kw.value for kw in fac.value.keywords]
-    ok = ast.unparse(fac.targets[0].slice) == nn.targets[0].id and allargs and ast.unparse(allargs[0]) == name_param and any(a is conv_expr or conv_expr in list(ast.walk(a)) for a in allargs)
+    allargs = list(fac_call.args) + [kw.value for kw in fac_call.keywords]
+    ok = fac_key in (name_var, ast.unparse(nn_expr) if name_var is None else name_var) and allargs and ast.unparse(allargs[0]) == name_param and any(a is conv_expr or conv_expr in list(ast.walk(a)) for a in allargs)
     ctx.ob("Q2", ok=ok, distinct="factory-call")
     if not ok:
-        ctx.violation("Q2", "creation|factory-call", tc.loc(fac), f"`{ast.unparse(fac)[:100]}` does not store converter(source column {name_param}) under the derived name")
+        ctx.violation("Q2", "creation|factory-call", tc.loc(fac_loc), f"`{ast.unparse(fac_loc)[:100]}` does not store converter(source column {name_param}) under the derived name")
     # the factory: inner function applies the converter to its only argument, argument renamed to the source name
-    ff = tc.functions[fac.value.func.id]
+    ff = tc.functions[fac_call.func.id]
     fparams = [a.arg for a in ff.args.args]
     inner = [n for n in ff.body if isinstance(n, ast.FunctionDef)]
     if len(inner) != 1 or len(fparams) < 3:
@@ -432,7 +515,9 @@ def creation_guard(ctx, tc):
     ctx.rule("Q5", "a time-unit variant is created for every function whose name matches the unit pattern: the creating statement is guarded only by the name match and by name-membership tests, not by other properties of the function object")
     fn = find_function(tc, "_create_time_conversion_functions", "primary anchor")
     params = [a.arg for a in fn.args.args]
-    stores = [n for n in ast.walk(fn) if isinstance(n, ast.Assign) and isinstance(n.targets[0], ast.Subscript) and any(isinstance(c, ast.Call) and isinstance(c.func, ast.Name) and c.func.id == "_create_function_for_time_unit" for c in ast.walk(n.value))]
+    # the creating calls themselves (stored by subscript assignment or as the value of a dict comprehension):
+    # the conditions dominating a call include enclosing ifs, guard clauses and comprehension filters
+    stores = [c for c in ast.walk(fn) if isinstance(c, ast.Call) and isinstance(c.func, ast.Name) and c.func.id == "_create_function_for_time_unit"]
     if not stores:
         raise AnalysisError("_create_time_conversion_functions: the statement creating a derived function was not found; Q5 needs a re-read")
     # names derived from the function object (second parameter), except through its signature (argument names)
